@@ -17,35 +17,39 @@ for sid in sorted(os.listdir(os.path.join(V, "seeded"))):
     keys = re.findall(r"'(R\d\d\.[0-9A-Z]+)[:\]]", res.get("findings", "")) or re.findall(r"\"(R\d\d\.[0-9A-Z]+)[:\]]", res.get("findings", ""))
     rows.append((sid, m["property"], m.get("round", 1), note, res.get("status", "?"), ", ".join(sorted(set(keys)))))
 caught = sum(1 for r in rows if r[4] == "CAUGHT")
+undecided = []
+for sid in sorted(os.listdir(os.path.join(V, "seeded")), key=lambda x: (x.split("-")[0], int(x.split("-")[1]))):
+    p_ = os.path.join(V, "seeded", sid, "meta.json")
+    if not os.path.exists(p_):
+        continue
+    m_ = json.load(open(p_))
+    r_ = m_.get("check_result_at_commit", {})
+    if r_.get("status") == "CAUGHT":
+        continue
+    np_ = os.path.join(V, "seeded", sid, "note.md")
+    head = ""
+    if os.path.exists(np_):
+        head = next((l.strip().lstrip("# ").strip() for l in open(np_).read().splitlines() if l.strip()), "")[:150]
+    msg = re.sub(r"^\[?['\"]?ANALYSIS-ERROR property=C\d\d: ", "", str(r_.get("findings", "")))[:330].replace("|", "/")
+    if r_.get("status") == "ANALYSIS-ERROR":
+        undecided.append(f"* {sid} - {head}: exit 2 - {msg}")
+    else:
+        undecided.append(f"* {sid} - {head}: the check of {m_['property']} passes; {msg or 'checks of other properties report it (see the last column)'}")
 out = ["## 11. Seeded changes written by independent sub-agents, and which rules catch them", "",
-       "Each change was written by a fresh sub-agent that saw only the text of one property and a scratch worktree of /repo (nothing from /verif), in seven rounds "
-       "(each later round was told which ideas the earlier rounds had used and asked for different ones). Every change kept here was confirmed by `tools/verify_seed.py` in the scratch "
+       "Each change was written by a fresh sub-agent that saw only the text of one property and a scratch worktree of /repo (nothing from /verif), in nine rounds "
+       "(each later round was told which ideas the earlier rounds had used and asked for different ones; `tools/prep_round.py` prepares the worktrees). Every change kept here was confirmed by `tools/verify_seed.py` in the scratch "
        "worktree: the patch applies to /repo's HEAD of that time, the 30 baseline tests still pass, and the demonstration fails with the change and passes without it on at least one of "
        "the interpreters 3.7-3.10 (3.12 for the JSON-only ones). `tools/seeded.py` applies each patch to a scratch copy (never to /repo) and runs the quick check of the "
        "property it targets (`--record` stores the outcome in meta.json; `--transform=unparse|rename|black60` re-formats the changed tree first). Seeds whose patch stopped applying "
-       "after a later `fix:` commit were re-applied onto the new tree and their demonstrations re-run (`rebased` in meta.json, the original kept as patch.orig.diff).", "",
+       "after a later `fix:` commit are evaluated on the tree they were written against (taken from /repo's history) and only the findings the change adds are counted.", "",
        f"Result at the last commit that touched the rules: **{caught} of {len(rows)}** changes make the check of *their own* property exit 1 with a finding naming the changed construct; "
-       "the others end in exit 2 ('not decided'), none passes silently. "
-       "History: round 1 - after the first evaluation 16 of 36 were caught by their own check (30 of 45 by some check); round 2 started at 11 of 30; round 3 at 14 of 48 "
-       "(22 by some check, 8 more at exit 2); round 4 at 12 of 48 (30 by some check, 7 more at exit 2); round 5 at 21 of 48; round 6 at 15 of 48; round 7 at 27 of 48. The misses drove most of the rule additions listed in section 0a. "
-       "Not decided, on purpose or for lack of a sound rule:", "",
-       "* C10-7, C10-8 - arithmetic of the table stages over integer sequences (`collapse_items` rewritten as a forward pass whose 'previous entry' is the already merged one; the lnotab "
-       "walk turned into a `for` over `range(0, max(max_offset, sum(...)), 2)`): exit 2 - whether the bound / the merged entry is right needs symbolic execution of loops over tables.",
-       "* C13-9, C02-10 - the target index found by `bisect_left` over a *part* of the sorted target list: exit 2 - whether the part always contains the target is a loop invariant.",
-       "* C06-6 - the None-pin decision moved into a pre-scan of `blocks[0]` only: exit 2 (guard calls a helper with a loop; not evaluable).",
-       "* C13-14 - block numbers from `itertools.accumulate` over a bytearray of marks, zipped with the instructions: exit 2 (the block-building loop is not the recognised one; "
-       "whether the running count indexes the right block is arithmetic over two sequences).",
-       "* C02-15 - a new `raise` in the decoder for relative jumps with `target <= next_offset` (JUMP_FORWARD 0 is compiler output): exit 2 from R02.R - every place where from_code can stop "
-       "is one confirmed by reading; whether valid input reaches a new one is not decided.",
-       "* C04-17, C15-18 (and C02-15) - new `raise` statements on valid input (more than 255 parameters; an instruction of four code units in a JSON document): exit 2 from the rejection-path "
-       "rules R04.R / R07.R.  C04-18 - the non-function arm asserts on co_varnames / co_cellvars: exit 2 (the flag fold cannot evaluate attributes of the code object).",
-       "* C02-17 - the parser's unit counter replaced by the size function of the operand: exit 2 (the counter of code units is not recognised; R02.8 is not reached).",
-       "* C08-17 - a hash cached in `__dict__` (pickle carries the seed-dependent number): exit 2 (hash idiom not recognised).  C14-17 - duplicate detection keyed by id() for code objects: "
-       "exit 2 (the table methods are not evaluable on the witness sequences).",
-       "* C04-21, C06-19, C14-21 - the decoder's ArgsInput construction moved into a classmethod, the relative-jump base changed on both sides at once, `__iter__` split into a per-block helper: "
-       "exit 2 (the recognisers of R04.1 / R02.3 / R14.4 do not find their anchor).",
-       "* C14-7 - `__iter__` re-derives the constants table with its own rank model: exit 2 ('the nested code objects reach the yield through `constants_table(...)`, not by walking "
-       "self's blocks directly').", "",
+       "the others are listed below, none passes every check silently. "
+       "History of first evaluations (before the rule work each round caused): round 1 - 16 of 36 caught by their own check (30 of 45 by some check); round 2 - 11 of 30; round 3 - 14 of 48 "
+       "(22 by some check, 8 more at exit 2); round 4 - 12 of 48 (30 by some check, 7 more at exit 2); round 5 - 21 of 48; round 6 - 15 of 48; round 7 - 27 of 48; round 8 - 20 of 48 "
+       "(9 by no check); round 9 - 29 of 48 (2 by no check). The misses drove most of the rule additions listed in section 0a. "
+       "Not decided by the check of their own property, at the last recorded run:", ""] + undecided + ["",
+       "(Exit 2 from a rejection-path rule is by design: a new `raise` on input the compiler can produce is 'not decided', because whether valid input reaches it needs more than the shape of the code. "
+       "C13-23 changes normalize(), whose result C13 - a statement about decoded data - does not cover; C05 and C06 report it.)", "",
        "| id | round | what the change does (from the sub-agent's note) | own check | rules that fire |", "|---|---|---|---|---|"]
 for sid, pid, rnd, note, st, keys in rows:
     out.append(f"| {sid} | {rnd} | {note} | {st} | {keys} |")
